@@ -227,13 +227,14 @@ def _do_op(op, sandbox):
     kind = op["op"]
     if kind == "create":
         out = p(op["out"])
-        oc = drive.create(op["route"], p(op["path"]), out, piece_length=op.get("pl"), progress=op.get("progress", 0))
+        oc = drive.create(op["route"], p(op["path"]), out, piece_length=op.get("pl"), progress=op.get("progress", 0),
+                          cli_prefix=op.get("prefix") or ())
         if not oc.ok:
             return {"exc": oc.excname()}
         return {"raw": mask_creation_date(oc.raw)}
     if kind == "recheck":
         oc = drive.recheck_lib(p(op["meta"]), p(op["content"])) if op.get("via") == "lib" else \
-            drive.recheck_cli(p(op["meta"]), p(op["content"]))
+            drive.recheck_cli(p(op["meta"]), p(op["content"]), prefix=op.get("prefix") or ())
         return {"exc": oc.excname()} if not oc.ok else {"ret": oc.ret}
     if kind == "magnet":
         commands = drive.mod("commands")
@@ -254,7 +255,7 @@ def _do_op(op, sandbox):
         dest = p(op["dest"])
         try:
             if op.get("via") == "cli":
-                oc = drive.cli_execute(["rebuild", "-m", p(op["meta"]), "-c", p(op["search"]), "-d", dest])
+                oc = drive.cli_execute(list(op.get("prefix") or ()) + ["rebuild", "-m", p(op["meta"]), "-c", p(op["search"]), "-d", dest])
                 if not oc.ok:
                     return {"exc": oc.excname()}
                 ret = oc.ret
@@ -383,7 +384,8 @@ class C09:
             out = f"meta/m{fresh_id[0]}.torrent"
             metas.append((out, ver))
             return {"op": "create", "route": route, "path": "p", "out": out,
-                    "pl": rng.choice([None, None, 14, 16384, 15]), "progress": rng.choice([0, 1, 2])}
+                    "pl": rng.choice([None, None, 14, 16384, 15, 16]), "progress": rng.choice([0, 1, 2]),
+                    "prefix": rng.choice([None, None, ["-q"], ["-v"]])}
 
         def mk_mut():
             k = rng.choice(["add", "delete", "grow", "shrink", "rewrite"])
@@ -422,7 +424,8 @@ class C09:
                 hist.append(mk_create())
             elif c < 0.65 and metas:
                 m, _ = rng.choice(metas)
-                hist.append({"op": "recheck", "meta": m, "content": rng.choice(["p", "."]), "via": rng.choice(["lib", "cli"])})
+                hist.append({"op": "recheck", "meta": m, "content": rng.choice(["p", "."]), "via": rng.choice(["lib", "cli"]),
+                             "prefix": rng.choice([None, None, ["-q"], ["-v"]])})
             elif c < 0.75 and metas:
                 m, _ = rng.choice(metas)
                 hist.append({"op": "magnet", "meta": m})
@@ -435,7 +438,7 @@ class C09:
                 m, _ = rng.choice(metas)
                 fresh_id[0] += 1
                 hist.append({"op": "rebuild", "meta": m, "search": ".", "dest": f"dest{fresh_id[0]}",
-                             "via": rng.choice(["lib", "cli"])})
+                             "via": rng.choice(["lib", "cli"]), "prefix": rng.choice([None, None, ["-q"], ["-v"]])})
             else:
                 hist.append(mk_mut())
         return {"files": files, "history": hist, "big": big}
